@@ -14,6 +14,8 @@ import (
 //
 //   dispatch_header     header of the first statement of interp.execute (must be a for loop)
 //   dispatch_head       the statements of that loop's body that precede the `switch op`
+//   record_loop_head    the statements of the record loop of interp.execActions (its first bare `for`)
+//                       that precede the call of p.nextLine
 //   check_context_body  statements of (*interp).checkContext
 //   check_now_body      statements of (*interp).checkContextNow
 //   execute_context     statements of (*Interpreter).ExecuteContext up to the call of setExecuteConfig
@@ -92,7 +94,8 @@ func genDispatchLoop(repo string) (string, error) {
 	var cmdSites [][3]string
 	var ctxErrSites [][2]string
 	var dispatchHeader string
-	var dispatchHead, checkBody, nowBody, ecBody, exBody []string
+	var dispatchHead, checkBody, nowBody, ecBody, exBody, recordHead []string
+	recordLoopFound := false
 	stmts := func(list []ast.Stmt) []string {
 		var out []string
 		for _, s := range list {
@@ -140,6 +143,27 @@ func genDispatchLoop(repo string) (string, error) {
 				if !found {
 					return "", fmt.Errorf("no switch statement in the dispatch loop of interp.execute")
 				}
+			case "interp.execActions":
+				ast.Inspect(fd.Body, func(n ast.Node) bool {
+					fs, ok := n.(*ast.ForStmt)
+					if !ok || recordLoopFound {
+						return !recordLoopFound
+					}
+					if fs.Init != nil || fs.Cond != nil || fs.Post != nil {
+						return true
+					}
+					for _, st := range fs.Body.List {
+						if strings.Contains(render(fset, st), "p.nextLine()") {
+							recordLoopFound = true
+							break
+						}
+						recordHead = append(recordHead, render(fset, st))
+					}
+					if !recordLoopFound {
+						recordHead = nil
+					}
+					return false
+				})
 			case "interp.checkContext":
 				checkBody = stmts(fd.Body.List)
 			case "interp.checkContextNow":
@@ -233,6 +257,9 @@ func genDispatchLoop(repo string) (string, error) {
 	if dispatchHeader == "" {
 		return "", fmt.Errorf("func (p *interp) execute not found in package interp")
 	}
+	if !recordLoopFound {
+		return "", fmt.Errorf("the record loop (bare for calling p.nextLine) not found in interp.execActions")
+	}
 	if checkBody == nil || nowBody == nil {
 		return "", fmt.Errorf("checkContext / checkContextNow not found in package interp")
 	}
@@ -259,6 +286,7 @@ func genDispatchLoop(repo string) (string, error) {
 		sb.WriteString("].\n")
 	}
 	list("dispatch_head", dispatchHead)
+	list("record_loop_head", recordHead)
 	list("check_context_body", checkBody)
 	list("check_now_body", nowBody)
 	list("execute_context", ecBody)
